@@ -102,7 +102,7 @@ def _re_plan(draw, max_len):
         n = m
     fn = draw(st.sampled_from(["findall", "fullmatch", "match", "search", "split", "sub", "subn"]))
     plan = {"area": "re", "vals": vals, "fn": fn, "pattern": draw(st.sampled_from(PATTERNS)),
-            "flags": draw(st.sampled_from([0, 2]))}
+            "flags": draw(st.sampled_from([0, 2])), "compiled": draw(st.integers(0, 3)) == 0}
     if fn == "split":
         plan["maxsplit"] = draw(st.sampled_from([0, 1, 2]))
     if fn in ("sub", "subn"):
@@ -186,6 +186,10 @@ def _check_dt(plan, ctx):
                 s = ctx.call(f"dt.{name}(scalar)", f, np.asarray(x)[j])
                 if not build.same_cell(build.acell(s, False), want[j], numeric_loose=True):
                     raise Violation(f"dt.{name} of a scalar differs from the one-element vector result", got=s, want=want[j])
+                s = ctx.call(f"dt.{name}(datetime object)", f, objs[j])          # a Python date / datetime as the scalar
+                if not build.same_cell(build.acell(s, False), want[j], numeric_loose=True):
+                    raise Violation(f"dt.{name} of a Python date / datetime scalar differs from the one-element vector result",
+                                    got=s, want=want[j], scalar=repr(objs[j]))
     elif op == "replace":
         kw = plan["kw"]
         def ref():
@@ -221,6 +225,10 @@ def _check_dt(plan, ctx):
                     if not build.same_cell(build.acell(sc, False), want[j]):
                         raise Violation("dt.replace of a scalar differs from the one-element vector result",
                                         got=build.acell(sc, False), want=want[j], kw=kw)
+                    sc = ctx.call("dt.replace(datetime object)", lambda: di.dt.replace(objs[j], **kw))
+                    if not build.same_cell(build.acell(sc, False), want[j]):
+                        raise Violation("dt.replace of a Python date / datetime scalar differs from the one-element vector result",
+                                        got=build.acell(sc, False), want=want[j], kw=kw, scalar=repr(objs[j]))
     elif op in ("to_string", "roundtrip"):
         fmt = plan["format"]
         out = ctx.call("dt.to_string", di.dt.to_string, x, fmt)
@@ -242,6 +250,10 @@ def _check_dt(plan, ctx):
             sc = ctx.call("dt.to_string(scalar)", di.dt.to_string, np.asarray(x)[j], fmt)
             if str(sc) != (want[j] or ""):
                 raise Violation("dt.to_string of a scalar differs from the one-element vector result", got=sc, want=want[j])
+            sc = ctx.call("dt.to_string(datetime object)", di.dt.to_string, objs[j], fmt)
+            if str(sc) != (want[j] or ""):
+                raise Violation("dt.to_string of a Python date / datetime scalar differs from the one-element vector result",
+                                got=sc, want=want[j], scalar=repr(objs[j]))
         if op == "roundtrip":
             unambiguous = all(o is None or o.year >= 1000 for o in objs) and (
                 fmt in ("%Y-%m-%d", "%d.%m.%Y") and unit == "D"
@@ -272,6 +284,10 @@ def _m(x):
 
 def _check_re(plan, ctx):
     vals, fn, pat, flags = plan["vals"], plan["fn"], plan["pattern"], plan["flags"]
+    if plan.get("compiled"):
+        # the pattern as an re.Pattern that carries its flags (re accepts it wherever it accepts a string)
+        pat, flags = re.compile(pat, flags), 0
+        ctx.cls("compiled_pattern")
     n = len(vals)
     x = di.Vector(np.array(vals, dtype=di.dtypes.string)) if n else di.Vector(np.array([], dtype=di.dtypes.string))
     before = build.snap_array(x)
